@@ -26,9 +26,11 @@ package vm
 //verif:bound step lemma: every opcode 0x00..0xff except 0xc0 (16 opcodes per obligation); data stack of 1..3 items (thorough: 4) and alt stack of 0..1 items; every item is a window buf[o:o+l:o+l+s] of one 8-byte buffer with offset o, length l <= 3 and spare capacity s all symbolic (overlaps allowed; l <= 2 at depth 3 and 4); buffer content, 5 bytes of instruction data, context values arbitrary; runLimit arbitrary in [0, 2^15]; with two or more items on the stack: item length <= 2 for opcodes 0x90..0x94, <= 1 for MUL/DIV/MOD 0x95..0x97 and for 0x98..0x9f (shifts, boolean and comparison operators)
 //verif:bound CHECKPREDICATE: real child VM run, child program from a menu of 8 programs (empty, CAT, DUP CAT, push CAT, SWAP CAT, 1 LEFT, TOALTSTACK, DROP), 2 (thorough: 3) aliased items below the three operands, 0..all of them handed to the child, runLimit arbitrary in [0, 2^12]
 //verif:bound Verify end to end: arguments decoded by the real ReadVarstrList from one 8-byte buffer holding any well-formed list of <= 3 arguments of <= 3 bytes with arbitrary content, one state item with spare capacity, the program with 2 bytes of spare capacity; menu of 14 programs of <= 7 instructions over splice/stack/bitwise/numeric opcodes with arbitrary push data, gas limit 10000
+//verif:bound long-item step lemma (VerifC06Wide): opcode groups 0x70..0xaf and 0xc0..0xcf (every opcode that converts items to numbers: PICK/ROLL, SUBSTR/LEFT/RIGHT, 1ADD..WITHIN, shifts, CHECKMULTISIG counts, CHECKOUTPUT; CHECKPREDICATE via VerifC06PredicateWide with the long item as limit, as count or handed to the child running 1ADD / DUP 0 LEFT DROP / 1 SWAP ADD); data stack of 1..3 items (CHECKOUTPUT: 5, thorough) of which ONE, at every position, is a 32-byte (thorough: 31, 33) window of a second 36-byte caller buffer with spare capacity; quick: its lowest and highest byte (sign bit free) and all surrounding bytes arbitrary, bytes between fixed to distinct non-zero values; thorough: all 32 bytes arbitrary; the other items <= 1 byte from the shared 8-byte buffer
+//verif:bound long-argument Verify (VerifC06VerifyWide): argument list {long, 1 byte} decoded by the real ReadVarstrList from one buffer, 9 programs (SWAP 1ADD, ADD, 0NOTEQUAL, LEFT, SWAP RIGHT, OVER LESSTHAN, DUP 1 <1ADD> 0 CHECKPREDICATE, SWAP PICK, 1 LSHIFT), gas 10000
 //verif:assume context callbacks: TxSigHash returns a fixed arbitrary 32-byte value, CheckOutput returns fixed arbitrary (ok, err) -- the same for both runs
 //verif:assume hash functions and ed25519.Verify are uninterpreted functions of the byte values
-//verif:outside layouts spanning more than one shared buffer, items longer than 3 bytes, data stacks deeper than 4 in the step lemma; CHECKPREDICATE child programs outside the menu; Verify programs outside the menu (the step lemma is the general argument, Verify is the end-to-end cross-check); the trace writer (TraceOut != nil); inside the region of KF-C06-CAT-APPEND other causes of the same assertion failures are not distinguished (the region is exact for the step lemma and CHECKPREDICATE, and 'program contains CAT/CATPUSHDATA' at the Verify level)
+//verif:outside MUL/DIV/MOD with the long item as the deeper (left) operand, and as right operand with fully arbitrary content (256-bit by 8-bit product/quotient is beyond the solver; right operand with the quick content pattern and single operand are covered); Verify-level SWAP PICK with fully arbitrary long content (the recovered runtime panic's Error() text is not encodable; the step lemma covers that exit through a recover wrapper); layouts spanning more than two caller buffers, items of 4..30 bytes and above 33 bytes, data stacks deeper than 4 in the step lemma; CHECKPREDICATE child programs outside the menu; Verify programs outside the menu (the step lemma is the general argument, Verify is the end-to-end cross-check); the trace writer (TraceOut != nil); inside the region of KF-C06-CAT-APPEND other causes of the same assertion failures are not distinguished (the region is exact for the step lemma and CHECKPREDICATE, and 'program contains CAT/CATPUSHDATA' at the Verify level)
 //verif:override github.com/bytom/bytom/protocol/vm.Disassemble -> verifC06Disassemble
 //verif:obligation fn=VerifC06Step args=0,15,1,1,3;16,31,1,1,3;32,47,1,1,3;48,63,1,1,3;64,79,1,1,3;80,95,1,1,3;96,111,1,1,3;112,127,1,1,3;128,143,1,1,3;144,159,1,1,3;160,175,1,1,3;176,191,1,1,3;192,207,1,1,3;208,223,1,1,3;224,239,1,1,3;240,255,1,1,3 loops=300 secs=900 idx=ite
 //verif:obligation fn=VerifC06Step args=0,15,2,0,3;16,31,2,0,3;32,47,2,0,3;48,63,2,0,3;64,79,2,0,3;80,95,2,0,3;96,111,2,0,3;112,127,2,0,3;128,143,2,0,3;144,148,2,0,2;152,159,2,0,1;160,175,2,0,3;176,191,2,0,3;192,207,2,0,3;208,223,2,0,3;224,239,2,0,3;240,255,2,0,3 loops=300 secs=900 idx=ite validate=10
@@ -42,6 +44,15 @@ package vm
 //verif:obligation fn=VerifC06Predicate args=2,2 idx=ite secs=900 validate=10
 //verif:obligation fn=VerifC06Predicate args=3,3 idx=ite secs=3000 tier=thorough
 //verif:obligation fn=VerifC06Verify args=0,8,3;1,8,3;2,8,3;3,8,3;4,8,3;5,8,3;6,8,3;7,8,3;8,8,3;9,8,3;10,8,3;11,8,3;12,8,3;13,8,3 secs=900 validate=10
+//verif:obligation fn=VerifC06Wide args=112,127,1,0,32,1;128,143,1,0,32,1;144,148,1,0,32,1;149,151,1,0,32,1;152,159,1,0,32,1;160,175,1,0,32,1;192,207,1,0,32,1;112,127,2,1,32,1;128,143,2,1,32,1;144,148,2,1,32,1;149,151,2,1,32,1;152,159,2,1,32,1;160,175,2,1,32,1;192,207,2,1,32,1;112,127,2,0,32,1;128,143,2,0,32,1;144,148,2,0,32,1;152,159,2,0,32,1;160,175,2,0,32,1;192,207,2,0,32,1;160,175,3,0,32,1 idx=ite secs=900 timeout=60000 validate=10
+//verif:obligation fn=VerifC06Wide args=112,127,3,0,32,1;128,143,3,0,32,1;144,148,3,0,32,1;152,159,3,0,32,1;192,207,3,0,32,1;112,127,3,1,32,1;128,143,3,1,32,1;144,148,3,1,32,1;152,159,3,1,32,1;160,175,3,1,32,1;192,207,3,1,32,1;112,127,3,2,32,1;128,143,3,2,32,1;144,148,3,2,32,1;149,151,3,2,32,1;152,159,3,2,32,1;160,175,3,2,32,1;192,207,3,2,32,1;193,193,5,0,32,1;193,193,5,1,32,1 idx=ite secs=3000 timeout=60000 tier=thorough
+//verif:obligation fn=VerifC06Wide args=112,127,1,0,31,1;128,143,1,0,31,1;144,148,1,0,31,1;149,151,1,0,31,1;152,159,1,0,31,1;160,175,1,0,31,1;192,207,1,0,31,1;112,127,2,1,31,1;128,143,2,1,31,1;144,148,2,1,31,1;149,151,2,1,31,1;152,159,2,1,31,1;160,175,2,1,31,1;192,207,2,1,31,1;112,127,2,0,31,1;128,143,2,0,31,1;144,148,2,0,31,1;152,159,2,0,31,1;160,175,2,0,31,1;192,207,2,0,31,1;160,175,3,0,31,1 idx=ite secs=3000 timeout=60000 tier=thorough
+//verif:obligation fn=VerifC06Wide args=112,127,1,0,33,1;128,143,1,0,33,1;144,148,1,0,33,1;149,151,1,0,33,1;152,159,1,0,33,1;160,175,1,0,33,1;192,207,1,0,33,1;112,127,2,1,33,1;128,143,2,1,33,1;144,148,2,1,33,1;149,151,2,1,33,1;152,159,2,1,33,1;160,175,2,1,33,1;192,207,2,1,33,1;112,127,2,0,33,1;128,143,2,0,33,1;144,148,2,0,33,1;152,159,2,0,33,1;160,175,2,0,33,1;192,207,2,0,33,1;160,175,3,0,33,1 idx=ite secs=3000 timeout=60000 tier=thorough
+//verif:obligation fn=VerifC06Wide args=112,127,1,0,32,0;128,143,1,0,32,0;144,148,1,0,32,0;149,151,1,0,32,0;152,159,1,0,32,0;160,175,1,0,32,0;192,207,1,0,32,0;112,127,2,1,32,0;128,143,2,1,32,0;144,148,2,1,32,0;152,159,2,1,32,0;160,175,2,1,32,0;192,207,2,1,32,0;112,127,2,0,32,0;128,143,2,0,32,0;144,148,2,0,32,0;152,159,2,0,32,0;160,175,2,0,32,0;192,207,2,0,32,0 idx=ite secs=3000 timeout=60000 tier=thorough
+//verif:obligation fn=VerifC06PredicateWide args=0,32,1;1,32,1;2,32,1 idx=ite secs=900 validate=10
+//verif:obligation fn=VerifC06PredicateWide args=0,31,1;1,31,1;2,31,1;0,33,1;1,33,1;2,33,1;0,32,0;1,32,0;2,32,0 idx=ite secs=3000 tier=thorough
+//verif:obligation fn=VerifC06VerifyWide args=0,32,1;1,32,1;2,32,1;3,32,1;4,32,1;5,32,1;6,32,1;7,32,1;8,32,1 secs=900 validate=10
+//verif:obligation fn=VerifC06VerifyWide args=0,31,1;1,31,1;2,31,1;3,31,1;4,31,1;5,31,1;6,31,1;7,31,1;8,31,1;0,33,1;1,33,1;2,33,1;3,33,1;4,33,1;5,33,1;6,33,1;7,33,1;8,33,1;0,32,0;1,32,0;2,32,0;3,32,0;4,32,0;5,32,0;6,32,0;8,32,0 secs=3000 tier=thorough
 
 import (
 	"bytes"
@@ -141,6 +152,18 @@ func (c *verifC06Ctx) unchanged() bool {
 	return verifC06StackEq([][]byte{c.asset, c.spent, c.entry, c.sighash}, c.snap)
 }
 
+// one step the way Verify runs it: a panic inside an op function (e.g. the index panic of PICK with a
+// depth operand in [2^63, 2^64), KF-C08-PICKROLL-TRUNC) is recovered and becomes ErrUnexpected, so that
+// the memory assertions are also decided on that exit
+func verifC06StepRecovered(vm *virtualMachine) (err error) {
+	defer func() {
+		if r := recover(); r != nil {
+			err = ErrUnexpected
+		}
+	}()
+	return vm.step()
+}
+
 // compares the outcome of the aliased run (A) with the independent run (B)
 func verifC06Compare(vmA *virtualMachine, errA error, vmB *virtualMachine, errB error) bool {
 	verifObserveBool("errA", errA != nil)
@@ -205,8 +228,8 @@ func VerifC06Step(opLo int, opHi int, nData int, nAlt int, maxLen int) {
 
 	verifKnown("KF-C06-CAT-APPEND", verifC06CatRegion(Op(op), data))
 
-	errB := vmB.step()
-	errA := vmA.step()
+	errB := verifC06StepRecovered(vmB)
+	errA := verifC06StepRecovered(vmA)
 
 	verifAssert(bytes.Equal(buf, bufSnap), "caller-buffer-unchanged")
 	verifAssert(bytes.Equal(prog, progSnap), "program-unchanged")
@@ -284,8 +307,8 @@ func VerifC06Predicate(nData int, maxLen int) {
 	vmB := &virtualMachine{context: c.ctx, program: verifC06Copy(prog), runLimit: r, expansionReserved: true, dataStack: dataB}
 	vmA := &virtualMachine{context: c.ctx, program: prog, runLimit: r, expansionReserved: true, dataStack: data}
 
-	errB := vmB.step()
-	errA := vmA.step()
+	errB := verifC06StepRecovered(vmB)
+	errA := verifC06StepRecovered(vmA)
 
 	verifAssert(bytes.Equal(buf, bufSnap), "caller-buffer-unchanged")
 	verifAssert(bytes.Equal(pred, predSnap), "program-unchanged")
@@ -380,5 +403,166 @@ func VerifC06Verify(menu int, rawLen int, maxArg int) {
 		verifReach("VerifC06Verify:accepted")
 	} else {
 		verifReach("VerifC06Verify:rejected")
+	}
+}
+
+const verifC06BigLen = 36
+
+// a long item: the window big[1:1+n] (n = 31, 32 or 33 bytes) of a second caller-owned buffer, with
+// the spare capacity that reaches the end of that buffer. free == 0: all content arbitrary; free == k > 0:
+// the k lowest and k highest bytes of the item (so the sign bit) and everything around it are arbitrary,
+// the bytes in between are fixed to distinct non-zero values (keeps the number of result lengths small)
+func verifC06WideItem(big []byte, n int, free int) ([]byte, []byte) {
+	if free > 0 {
+		for i := 1 + free; i < 1+n-free; i++ {
+			big[i] = byte(0x10 + i)
+		}
+	}
+	w := big[1 : 1+n]
+	return w, verifC06Copy(w)
+}
+
+// the step lemma with ONE long item at stack position widePos (0 = bottom) among short ones:
+// numeric conversions (AsBigInt/popBigInt) reject or accept it depending on length and sign bit;
+// every exit, in particular the error exits, must leave the caller's memory and the other items alone
+func VerifC06Wide(opLo int, opHi int, nData int, widePos int, wideLen int, free int) {
+	op := verifU8("op")
+	verifAssume(int(op) >= opLo && int(op) <= opHi && Op(op) != OP_CHECKPREDICATE)
+	buf := verifBytesN("buf", verifC06BufLen)
+	big := verifBytesN("big", verifC06BigLen)
+	var data, dataB [][]byte
+	for i := 0; i < nData; i++ {
+		var a, b []byte
+		if i == widePos {
+			a, b = verifC06WideItem(big, wideLen, free)
+		} else {
+			a, b = verifC06Item(buf, 1)
+		}
+		data, dataB = append(data, a), append(dataB, b)
+	}
+	prog := append([]byte{op}, verifBytesN("progdata", 5)...)
+	c := verifC06Context(prog)
+	r := verifI64("runLimit")
+	verifAssume(r >= 0 && r <= 1<<15)
+	exp := verifBool("expansionReserved")
+
+	bufSnap, bigSnap, progSnap := verifC06Copy(buf), verifC06Copy(big), verifC06Copy(prog)
+	vmB := &virtualMachine{context: c.ctx, program: verifC06Copy(prog), runLimit: r, expansionReserved: exp, dataStack: dataB}
+	vmA := &virtualMachine{context: c.ctx, program: prog, runLimit: r, expansionReserved: exp, dataStack: data}
+
+	errB := verifC06StepRecovered(vmB)
+	errA := verifC06StepRecovered(vmA)
+
+	verifAssert(bytes.Equal(buf, bufSnap), "caller-buffer-unchanged")
+	verifAssert(bytes.Equal(big, bigSnap), "caller-long-item-buffer-unchanged")
+	verifAssert(bytes.Equal(prog, progSnap), "program-unchanged")
+	verifAssert(c.unchanged(), "context-data-unchanged")
+	if verifC06Compare(vmA, errA, vmB, errB) {
+		verifReach("VerifC06Wide:ok")
+	} else {
+		verifReach("VerifC06Wide:error")
+		if errors.Root(errA) == ErrRange {
+			verifReach("VerifC06Wide:range-error")
+		}
+		if errors.Root(errA) == ErrBadValue {
+			verifReach("VerifC06Wide:bad-value")
+		}
+	}
+}
+
+// child programs for the long-item CHECKPREDICATE check
+var verifC06PredWideMenu = [][]byte{
+	{},
+	{byte(OP_1ADD)},
+	{byte(OP_DUP), byte(OP_0), byte(OP_LEFT), byte(OP_DROP)},
+	{byte(OP_1), byte(OP_SWAP), byte(OP_ADD)},
+}
+
+// CHECKPREDICATE with a long item as the limit (which = 0), as the item count (1) or as the item
+// handed to the child VM (2)
+func VerifC06PredicateWide(which int, wideLen int, free int) {
+	big := verifBytesN("big", verifC06BigLen)
+	w, wB := verifC06WideItem(big, wideLen, free)
+	menu := verifChoice("pred.menu", len(verifC06PredWideMenu))
+	pred := verifC06Copy(verifC06PredWideMenu[menu])
+	short := verifBytesN("short", 3)
+	var data, dataB [][]byte
+	switch which {
+	case 0:
+		data = [][]byte{short[0:1], {}, pred, w}
+		dataB = [][]byte{verifC06Copy(short[0:1]), {}, verifC06Copy(pred), wB}
+	case 1:
+		data = [][]byte{short[0:1], w, pred, {}}
+		dataB = [][]byte{verifC06Copy(short[0:1]), wB, verifC06Copy(pred), {}}
+	default:
+		data = [][]byte{short[0:1], w, {1}, pred, {}}
+		dataB = [][]byte{verifC06Copy(short[0:1]), wB, {1}, verifC06Copy(pred), {}}
+	}
+	prog := []byte{byte(OP_CHECKPREDICATE)}
+	c := verifC06Context(prog)
+	r := verifI64("runLimit")
+	verifAssume(r >= 0 && r <= 1<<12)
+
+	bigSnap, shortSnap, predSnap := verifC06Copy(big), verifC06Copy(short), verifC06Copy(pred)
+	vmB := &virtualMachine{context: c.ctx, program: verifC06Copy(prog), runLimit: r, expansionReserved: true, dataStack: dataB}
+	vmA := &virtualMachine{context: c.ctx, program: prog, runLimit: r, expansionReserved: true, dataStack: data}
+
+	errB := verifC06StepRecovered(vmB)
+	errA := verifC06StepRecovered(vmA)
+
+	verifAssert(bytes.Equal(big, bigSnap), "caller-long-item-buffer-unchanged")
+	verifAssert(bytes.Equal(short, shortSnap), "caller-buffer-unchanged")
+	verifAssert(bytes.Equal(pred, predSnap), "program-unchanged")
+	if verifC06Compare(vmA, errA, vmB, errB) {
+		verifReach("VerifC06PredicateWide:ok")
+	} else {
+		verifReach("VerifC06PredicateWide:error")
+	}
+}
+
+// programs for the end-to-end check with a long argument (argument 1 long, argument 2 one byte on top)
+var verifC06VerifyWideMenu = [][]byte{
+	{byte(OP_SWAP), byte(OP_1ADD)},
+	{byte(OP_ADD)},
+	{byte(OP_DROP), byte(OP_DUP), byte(OP_0NOTEQUAL), byte(OP_DROP)},
+	{byte(OP_LEFT)},
+	{byte(OP_SWAP), byte(OP_RIGHT)},
+	{byte(OP_OVER), byte(OP_LESSTHAN)},
+	{byte(OP_DROP), byte(OP_DUP), byte(OP_1), byte(OP_DATA_1), byte(OP_1ADD), byte(OP_0), byte(OP_CHECKPREDICATE), byte(OP_DROP)},
+	{byte(OP_SWAP), byte(OP_PICK)},
+	{byte(OP_DROP), byte(OP_DUP), byte(OP_1), byte(OP_LSHIFT), byte(OP_DROP)},
+}
+
+// Verify with a long first argument laid out by the real decoder, against independent copies
+func VerifC06VerifyWide(menu int, wideLen int, free int) {
+	raw := verifBytesN("raw", 1+1+wideLen+1+1+2)
+	if free > 0 {
+		for i := 2 + free; i < 2+wideLen-free; i++ {
+			raw[i] = byte(0x10 + i)
+		}
+	}
+	raw[0] = 2
+	raw[1] = byte(wideLen)
+	raw[2+wideLen] = 1
+	args, derr := blockchain.ReadVarstrList(blockchain.NewReader(raw))
+	verifAssert(derr == nil && len(args) == 2 && len(args[0]) == wideLen, "decoder-accepts-well-formed-list")
+	prog := verifC06Copy(verifC06VerifyWideMenu[menu])
+	rawSnap, progSnap := verifC06Copy(raw), verifC06Copy(prog)
+	one := uint64(1)
+	ctxB := &Context{VMVersion: 1, TxVersion: &one, Code: verifC06Copy(prog), Arguments: verifC06CopyStack(args)}
+	ctxA := &Context{VMVersion: 1, TxVersion: &one, Code: prog, Arguments: args}
+
+	gasB, errB := Verify(ctxB, 10000)
+	gasA, errA := Verify(ctxA, 10000)
+
+	verifObserveI64("gasA", gasA)
+	verifObserveBool("errA", errA != nil)
+	verifAssert(bytes.Equal(raw, rawSnap), "verify-argument-buffer-unchanged")
+	verifAssert(bytes.Equal(prog, progSnap), "verify-program-buffer-unchanged")
+	verifAssert(gasA == gasB && errors.Root(errA) == errors.Root(errB), "verify-same-result-as-independent-copies")
+	if errA == nil {
+		verifReach("VerifC06VerifyWide:accepted")
+	} else {
+		verifReach("VerifC06VerifyWide:rejected")
 	}
 }
